@@ -208,7 +208,7 @@ func checkC19(c *harness.Check) {
 	// U+0171='q'; same low 16 bits: U+10031='1', U+10061='a')
 	sym := []string{"a", "h", "e", "1", "8", "9", "0", "q", "k", "p", "x", " ", "é", "٣", "\x00", "A", "Q", "-", "ı", "ĸ", "š", "Ũ", "ű", "\U00010031", "\U00010061"}
 	maxLen := 5
-	c.Rule = fmt.Sprintf("(a) every string of <= %d symbols over %q into ParseMove and ParseSquareStr; (b) every FEN whose board field is a word of <= %d tokens over {K,k,p,1,3,8,9,0,/,arabic-3,x, 8/8/8/8, 8/8/8/8/8/8/8/7, 9x28 (run-length macros: the square cursor is a small unsigned integer)} with canonical other fields, and valid boards crossed with field alphabets for side/castling/e.p./clocks; (c) every single (thorough: and double) edit - replace, insert, delete over a 30-symbol alphabet - of %d valid FENs; (d) for every BFS node (depth<=1) of the seed corpus all 64x64x(none,q,r,b,n,k,p) move strings + case/length variants through Engine.Move: accepted iff reference-legal, successor FEN standard, state snapshot unchanged on rejection (positions one move from a seed are set up by PLAYING that move, so the engine has a history to lose). (e) on engines that have a game: Reset with every single edit of two FENs that does not decode, is rejected and leaves the game as it was (and so does a refused TakeBack at the root). Oracle for decoding: no panic; error or non-nil self-consistent position whose re-encoding decodes to the same position. distinct_nontrivial = accepted inputs", maxLen, sym, c.Pick(5, 6), 10)
+	c.Rule = fmt.Sprintf("(a) every string of <= %d symbols over %q into ParseMove and ParseSquareStr; (b) every FEN whose board field is a word of <= %d tokens over {K,k,p,1,3,8,9,0,/,arabic-3,x, 8/8/8/8, 8/8/8/8/8/8/8/7, 9x28 (run-length macros: the square cursor is a small unsigned integer)} with canonical other fields, and valid boards crossed with field alphabets for side/castling/e.p./clocks; (c) every single (thorough: and double) edit - replace, insert, delete over a 30-symbol alphabet - of %d valid FENs; (d) for every BFS node (depth<=1) of the seed corpus all 64x64x(none,q,r,b,n,k,p) move strings + case/length variants through Engine.Move: accepted iff reference-legal, successor FEN standard, state snapshot unchanged on rejection (positions one move from a seed are set up by PLAYING that move, so the engine has a history to lose). (e) on engines that have a game: Reset with every single edit of two FENs that does not decode, is rejected and leaves the game as it was (and so does a refused TakeBack at the root). Oracle for decoding: no panic; error or non-nil self-consistent position whose re-encoding decodes to the same position. Late in a game: after 2..5 rounds of a knight shuffle from the start position (third, fourth and FIFTH occurrence) every legal move is accepted by Engine.Move and leads where it should. distinct_nontrivial = accepted inputs", maxLen, sym, c.Pick(5, 6), 10)
 
 	// (a) short strings into the two parsers
 	var cc classCap
@@ -533,6 +533,28 @@ func checkC19(c *harness.Check) {
 			}
 		})
 		c.SetExtra("rejected_setups_tried", len(bad))
+	}
+	// late in a game: after the third and after the FIFTH occurrence of a position (16 reversible
+	// plies) every legal move is still a move the game accepts - a draw, claimable or not, is not the
+	// board's business when it is asked whether a move string denotes a legal move
+	shuffle := []string{"g1f3", "g8f6", "f3g1", "f6g8"}
+	for _, rounds := range []int{2, 3, 4, 5} {
+		var hist []string
+		for i := 0; i < rounds; i++ {
+			hist = append(hist, shuffle...)
+		}
+		g, _ := ref.GameFromFEN(corpus.Initial)
+		for _, t := range hist {
+			rm, _ := g.Cur().FindMove(t)
+			g.Push(rm)
+		}
+		for _, rm := range g.Cur().Legal() {
+			c.Evaluations.Add(1)
+			line := append(append([]string(nil), hist...), rm.String())
+			if _, msg := engineLine(corpus.Initial, line); msg != "" {
+				c.Violation(cc.sig("C19/move-late", fmt.Sprintf("%d rounds %s", rounds, rm)), msg, "C01/engine-line", append([]string{corpus.Initial}, line...))
+			}
+		}
 	}
 	c.Finish()
 }
